@@ -116,14 +116,20 @@ def run(ctx):
         exe = lib.build_driver("c03_matrix")
         t1 = os.path.join(ctx.work, "sym.ndjson")
         lib.run_driver(exe, ["sym", t1, 0 if q else 1], env=env, timeout=1200)
-        t2 = os.path.join(ctx.work, "rows.ndjson")
-        lib.run_driver(exe, ["rows", t2, 0 if q else 1], env=env, timeout=2400)
+        tc = os.path.join(ctx.work, "count.ndjson")
+        lib.run_driver(exe, ["count", tc, 0 if q else 1], env=env, timeout=300)
+        nfam = lib.read_ndjson(tc)[0]["families"]
+        t2s = [os.path.join(ctx.work, "rows%d.ndjson" % k) for k in range(nfam)]
+        with cf.ThreadPoolExecutor(min(jobs, 4)) as ex2:   # one process per family of geometries
+            list(ex2.map(lambda k: lib.run_driver(exe, ["rows", t2s[k], 0 if q else 1, k], env=env, timeout=2400), range(nfam)))
         lib.log("  [%4.0fs] traces recorded" % (time.time() - ctx.t0))
         if fut:
             fut.result()
     # 2. validate
     c1 = lib.split_trace(t1, os.path.join(ctx.work, "chunks"), maxlines=25000, boundary="SymCfg")
-    c2 = lib.split_trace(t2, os.path.join(ctx.work, "chunks"), maxlines=6000, boundary="Config")
+    c2 = []
+    for t2 in t2s:
+        c2 += lib.split_trace(t2, os.path.join(ctx.work, "chunks"), maxlines=6000, boundary="Config")
     _validate(ctx, "Trace_Symmetries", c1, jobs, "SymCfg")
     lib.log("  [%4.0fs] %d symmetry chunks validated" % (time.time() - ctx.t0, len(c1)))
     _validate(ctx, "Trace_MatrixCache", c2, jobs, "Config")
